@@ -735,7 +735,17 @@ def run(prop_id, tier, seed, replay=None):
         if live_res.get("holds") is False:
             print("design-level: TLC finds a fair behaviour of the model in which Stop does not complete: %s"
                   % " ".join(live_res["cex"][:60]), file=os.sys.stderr)
-        return family.finish(prop_id, tier, seed, t0, tl, g, scn, observed, verdict, dr, extra,
-                             ASSUMPTIONS, label=label, exhaustive=True)
+        rc = family.finish(prop_id, tier, seed, t0, tl, g, scn, observed, verdict, dr, extra,
+                           ASSUMPTIONS, label=label, exhaustive=True)
+        if not replay:
+            # the filter batch writer ChainService.Stop stops last, and the queue it rests on
+            # (specs/BatchWriter, specs/ConcQueue; notes/smallstructs.md)
+            from . import batchwriter, concqueue
+            rc2, cov2 = batchwriter.run_slice("C17", tier, seed)
+            batchwriter.merge_evidence("C17", cov2)
+            rc3, cov3 = concqueue.run_slice("C17", tier, seed)
+            concqueue.merge_evidence("C17", cov3)
+            rc = max(rc, rc2, rc3)
+        return rc
     finally:
         shutil.rmtree(sc, ignore_errors=True)
